@@ -77,7 +77,46 @@ func H_C19_wellformed(v *V) {
 func H_C19_structure(v *V) {
 	lv := v.Shape("lv")
 	N1, N2, N3 := v.String(lv), v.String(lv), v.String(lv)
-	switch v.Choice(3) {
+	switch v.Choice(4) {
+	case 3:
+		// derived names: each group carries a namespace, an env-namespace,
+		// both or neither; the option's namespaced long name and env key are
+		// built from exactly the attributes that are present
+		bits := v.Choice(4)
+		gtag := func(title string, b int) (tag, ns, ens string) {
+			tag = "group:" + refQuote(title)
+			if b&1 != 0 {
+				ns = N1
+				tag += " namespace:" + refQuote(N1)
+			}
+			if b&2 != 0 {
+				ens = N2
+				tag += " env-namespace:" + refQuote(N2)
+			}
+			return
+		}
+		t1, ns1, ens1 := gtag("One", bits)
+		t2, ns2, ens2 := gtag("Two", 3-bits)
+		data := vTagged(v, "gg", []string{t1, `long:"x" env:"EX"`, t2, `long:"y" env:"EY"`})
+		p := NewNamedParser("prog", None)
+		_, err := p.AddGroup("Outer", "", data)
+		v.Assert(err == nil, "legal group tags are accepted")
+		if err != nil {
+			return
+		}
+		v.Reach("derived")
+		join := func(pre, d, name string) string {
+			if pre == "" {
+				return name
+			}
+			return pre + d + name
+		}
+		ox, oy := p.FindOptionByLongName(join(ns1, ".", "x")), p.FindOptionByLongName(join(ns2, ".", "y"))
+		v.Assert(ox != nil && oy != nil, "each option is found under its namespaced long name")
+		if ox != nil && oy != nil {
+			v.Assert(v.EqStr(ox.LongNameWithNamespace(), join(ns1, ".", "x")) && v.EqStr(oy.LongNameWithNamespace(), join(ns2, ".", "y")), "the namespaced long name is built from the groups' namespaces only")
+			v.Assert(v.EqStr(ox.EnvKeyWithNamespace(), join(ens1, "_", "EX")) && v.EqStr(oy.EnvKeyWithNamespace(), join(ens2, "_", "EY")), "the namespaced env key is built from the groups' env-namespaces only")
+		}
 	case 0:
 		v.Assume(len(N1) > 0)
 		data := vTagged(v, "g", []string{"group:" + refQuote(N1) + " namespace:" + refQuote(N2) + " env-namespace:" + refQuote(N3)})
